@@ -10,7 +10,7 @@ the translator itself is cos(-x) = cos x, sin(-x) = -sin x when it reads `jones_
 import ast
 import re
 from pyexpr2lean import Gen, Tr, Untranslatable, load, get_def, get_const, find_returns
-from gen_c17 import straight_env, inline_locals
+from gen_c17 import straight_env, inline_locals, substitute
 
 M = 'Model.C20'
 ROTFN = 'jones_rotation_matrix'
@@ -215,6 +215,31 @@ class Interp:
         return None
 
 
+def inline_simple_locals(fn):
+    """body of fn with every local that is bound exactly once, at top level, to a call-free arithmetic expression of names that are
+    never (re)bound in fn, substituted into the later statements (e.g. `half = retardance / 2` ... `np.cos(half)` ->
+    `np.cos(retardance / 2)`).  Value-preserving: neither the local nor what it is made of can change in between."""
+    stores = {}
+    for n in ast.walk(fn):
+        if isinstance(n, ast.Name) and isinstance(n.ctx, (ast.Store, ast.Del)):
+            stores[n.id] = stores.get(n.id, 0) + 1
+        elif isinstance(n, ast.AugAssign) and isinstance(n.target, ast.Name):
+            stores[n.target.id] = stores.get(n.target.id, 0) + 2
+    out, mapping = [], {}
+    for st in fn.body:
+        if mapping:
+            st = substitute(st, mapping) if not isinstance(st, ast.Assign) else \
+                ast.fix_missing_locations(ast.Assign(targets=st.targets, value=substitute(st.value, mapping), lineno=st.lineno))
+        if isinstance(st, ast.Assign) and len(st.targets) == 1 and isinstance(st.targets[0], ast.Name) \
+                and stores.get(st.targets[0].id) == 1 and isinstance(st.value, (ast.BinOp, ast.UnaryOp)) \
+                and not any(isinstance(x, (ast.Call, ast.Subscript, ast.Attribute)) for x in ast.walk(st.value)) \
+                and all(stores.get(x.id, 0) == 0 for x in ast.walk(st.value) if isinstance(x, ast.Name)):
+            mapping[st.targets[0].id] = st.value
+            continue
+        out.append(st)
+    return out
+
+
 def default_of(fn, name):
     args = fn.args.args
     defs = fn.args.defaults
@@ -299,7 +324,7 @@ def generate(repo):
         fn = get_def(po, 'vector_vortex_retarder')
         it = Interp({'np.cos(retardance / 2)': 'ch', 'np.sin(retardance / 2)': 'sh', '-1j': 'mI', '1j': '(-mI)'},
                     {'rotate': ('cr', 'sr'), '-rotate': ('cr', '(-sr)')}, slots=[('c', 's')], module=po)
-        term = it.run(fn.body)
+        term = it.run(inline_simple_locals(fn))
         if term is None:
             raise Untranslatable('no return')
         if len(it.rebound_angles) > 1:
@@ -486,6 +511,45 @@ def generate(repo):
                         slot_of = {ast.unparse(e): k for k, e in enumerate(t.elts)}
                     elif isinstance(t, ast.Name):
                         slot_of = {f'{t.id}[{k}]': k for k in range(len(reads))}
+        if reads is None:
+            # form (c): idx = [(0, 0), ...]; comps = [wavefunction[..., i, j] for i, j in idx]; outs = [prop_func(E, ...) for E in comps];
+            #           for (i, j), E in zip(idx2, outs): out[..., i, j] = E
+            lits = {}
+            for st in wr.body:
+                if isinstance(st, ast.Assign) and len(st.targets) == 1 and isinstance(st.targets[0], ast.Name):
+                    try:
+                        v = ast.literal_eval(st.value)
+                    except (ValueError, SyntaxError):
+                        continue
+                    if isinstance(v, (list, tuple)) and v and all(isinstance(p, tuple) and len(p) == 2 and all(q in (0, 1) and not isinstance(q, bool) for q in p) for p in v):
+                        lits[st.targets[0].id] = [tuple(p) for p in v]
+            comps = props = None
+            for st in wr.body:
+                if isinstance(st, ast.Assign) and len(st.targets) == 1 and isinstance(st.targets[0], ast.Name) \
+                        and isinstance(st.value, ast.ListComp) and len(st.value.generators) == 1 and not st.value.generators[0].ifs:
+                    gen_ = st.value.generators[0]
+                    it_ = ast.unparse(gen_.iter)
+                    tg = ast.unparse(gen_.target).replace(' ', '').strip('()')
+                    if it_ in lits and ast.unparse(st.value.elt).replace(' ', '') == 'wavefunction[...,%s]' % tg and ',' in tg:
+                        comps = (st.targets[0].id, lits[it_])
+                    elif comps and it_ == comps[0] and is_prop_call(st.value.elt, ast.unparse(gen_.target)):
+                        props = st.targets[0].id
+            loops_c = [st for st in wr.body if isinstance(st, ast.For)]
+            if comps and props and len(loops_c) == 1 and len(loops_c[0].body) == 1 and isinstance(loops_c[0].body[0], ast.Assign):
+                lp = loops_c[0]
+                z = lp.iter
+                if isinstance(z, ast.Call) and ast.unparse(z.func) == 'zip' and len(z.args) == 2 and not z.keywords \
+                        and ast.unparse(z.args[0]) in lits and ast.unparse(z.args[1]) == props \
+                        and isinstance(lp.target, ast.Tuple) and len(lp.target.elts) == 2 and isinstance(lp.target.elts[0], ast.Tuple):
+                    ij = [ast.unparse(e) for e in lp.target.elts[0].elts]
+                    ev = ast.unparse(lp.target.elts[1])
+                    a = lp.body[0]
+                    if len(ij) == 2 and ast.unparse(a.targets[0]).replace(' ', '') == f'out[...,{ij[0]},{ij[1]}]' and ast.unparse(a.value) == ev:
+                        wl = lits[ast.unparse(z.args[0])]
+                        if len(wl) == len(comps[1]):
+                            fmt = lambda ps: '[' + ', '.join(f'({i}, {j})' for i, j in ps) + ']'
+                            return (f'def adapterReads : List (Nat × Nat) := {fmt(comps[1])}\n'
+                                    f'def adapterWrites : List (Nat × Nat) := {fmt(wl)}')
         if reads is None or not slot_of:
             raise Untranslatable('component propagation not recognised (neither a loop nor a comprehension over the components)')
         writes = {}
@@ -624,6 +688,120 @@ def generate(repo):
     g.item('circular_pol_vector', 'prysm/x/polarization.py:circular_pol_vector', lambda: get_def(po, 'circular_pol_vector'), circpol,
            f'def circPol (I r2 : K) (left : Bool) : V2 K := {M}.circPol I r2 left\ndef circDefaultLeft : Bool := true\n'
            'def circUnknownHandednessRaises : Bool := true')
+
+    # ------------------------------------------------------------------ second pass: index maps / wiring of the remaining helpers
+    def kron_map():
+        """broadcast_kron as an index map: einsum subscripts (implicit output = sorted letters, or the explicit one) followed by the
+        reshape that merges the first two and the last two output axes (all of size 2): row r -> (r / 2, r % 2), column c likewise"""
+        fn = get_def(po, 'broadcast_kron')
+        calls = [c for c in ast.walk(fn) if isinstance(c, ast.Call) and ast.unparse(c.func) == 'np.einsum']
+        if len(calls) != 1 or len(calls[0].args) != 3 or not isinstance(calls[0].args[0], ast.Constant) or calls[0].keywords:
+            raise Untranslatable('einsum call')
+        ops = [ast.unparse(a) for a in calls[0].args[1:]]
+        if sorted(ops) != ['a', 'b']:
+            raise Untranslatable(f'einsum operands {ops}')
+        sub = calls[0].args[0].value.replace(' ', '')
+        m = re.fullmatch(r'\.\.\.([a-zA-Z])([a-zA-Z]),\.\.\.([a-zA-Z])([a-zA-Z])(?:->\.\.\.([a-zA-Z]{4}))?', sub)
+        if not m or len({m.group(1), m.group(2), m.group(3), m.group(4)}) != 4:
+            raise Untranslatable(f'einsum subscripts {sub}')
+        first, second = (m.group(1), m.group(2)), (m.group(3), m.group(4))
+        out = m.group(5) or ''.join(sorted(first + second))
+        if sorted(out) != sorted(first + second):
+            raise Untranslatable('einsum output letters')
+        (ret,) = find_returns(fn)
+        want = '.reshape([*a.shape[:-2],a.shape[-2]*b.shape[-2],a.shape[-1]*b.shape[-1]])'
+        if not ast.unparse(inline_locals(fn, ret)).replace(' ', '').endswith(want):
+            raise Untranslatable('reshape of the einsum result')
+        pos = {out[0]: '(r / 2)', out[1]: '(r % 2)', out[2]: '(c / 2)', out[3]: '(c % 2)'}
+        lhs = {ops[0]: first, ops[1]: second}
+        return ('def kronEntry (a b : M22 K) (r c : Nat) : K := '
+                f'a.get {pos[lhs["a"][0]]} {pos[lhs["a"][1]]} * b.get {pos[lhs["b"][0]]} {pos[lhs["b"][1]]}')
+    g.item('broadcast_kron', 'prysm/x/polarization.py:broadcast_kron', lambda: get_def(po, 'broadcast_kron'), kron_map,
+           f'def kronEntry (a b : M22 K) (r c : Nat) : K := {M}.kron a b r c')
+
+    def apply_optic():
+        fn = get_def(po, 'apply_polarization_optic')
+        if [a.arg for a in fn.args.args] != ['field', 'pol_optic']:
+            raise Untranslatable('signature of apply_polarization_optic')
+        top = [st for st in fn.body if not (isinstance(st, ast.Expr) and isinstance(st.value, ast.Constant))]
+        if len(top) != 3 or not isinstance(top[0], ast.If) or top[0].orelse or len(top[0].body) != 1:
+            raise Untranslatable('body shape')
+        if ast.unparse(top[0].test).replace(' ', '') not in ('field.ndim==2', 'np.ndim(field)==2'):
+            raise Untranslatable('ndim test')
+        ex = ast.unparse(top[0].body[0]).replace(' ', '').replace('None', 'np.newaxis')
+        if ex != 'field=field[...,np.newaxis,np.newaxis]':
+            raise Untranslatable(f'expansion of the field: {ex}')
+        st = top[1]
+        if not (isinstance(st, ast.Assign) and isinstance(st.value, ast.BinOp) and isinstance(st.targets[0], ast.Name)):
+            raise Untranslatable('product statement')
+        opn = {ast.Mult: '*', ast.Add: '+', ast.Sub: '-', ast.Div: '/'}.get(type(st.value.op))
+        l, r = ast.unparse(st.value.left), ast.unparse(st.value.right)
+        if opn is None or sorted([l, r]) != ['field', 'pol_optic']:
+            raise Untranslatable(f'product {ast.unparse(st.value)}')
+        if not (isinstance(top[2], ast.Return) and ast.unparse(top[2].value) == st.targets[0].id):
+            raise Untranslatable('return')
+        ent = lambda e: f'(J.{e} {opn} f)' if l == 'pol_optic' else f'(f {opn} J.{e})'
+        return 'def applyOptic (f : K) (J : M22 K) : M22 K := ⟨' + ', '.join(ent(e) for e in 'abcd') + '⟩'
+    g.item('apply_polarization_optic', 'prysm/x/polarization.py:apply_polarization_optic', lambda: get_def(po, 'apply_polarization_optic'),
+           apply_optic, 'def applyOptic (f : K) (J : M22 K) : M22 K := M22.smul f J')
+
+    def adapter_forwards():
+        """every component call is prop_func(E, *other_args, **kwargs) with other_args = args[1:] (or () when there is none), and the
+        result container appends (2, 2) to the shape of a component result"""
+        fn = get_def(po, 'jones_adapter')
+        wr = [n for n in fn.body if isinstance(n, ast.FunctionDef) and n.name == 'wrapper'][0]
+        if not (wr.args.vararg and wr.args.vararg.arg == 'args' and wr.args.kwarg and wr.args.kwarg.arg == 'kwargs' and not wr.args.args):
+            return None
+        oth = [ast.unparse(st.value).replace(' ', '') for st in ast.walk(wr) if isinstance(st, ast.Assign) and ast.unparse(st.targets[0]) == 'other_args']
+        if not oth or any(o not in ('args[1:]', '()', 'tuple()') for o in oth) or 'args[1:]' not in oth:
+            # recognised and wrong only for a plain slice other than [1:] (e.g. args[2:], args[:1]); anything else: not understood
+            return False if any(re.fullmatch(r'args\[-?\d*:-?\d*\]', o) and o != 'args[1:]' for o in oth) else None
+        calls = [c for c in ast.walk(wr) if isinstance(c, ast.Call) and ast.unparse(c.func) == 'prop_func']
+        comp = [c for c in calls if ast.unparse(c).replace(' ', '') != 'prop_func(*args,**kwargs)']
+        if not comp:
+            return None
+        for c in comp:
+            a = [ast.unparse(x).replace(' ', '') for x in c.args]
+            k = [(x.arg, ast.unparse(x.value)) for x in c.keywords]
+            if len(a) == 2 and a[1] == '*other_args' and k == [(None, 'kwargs')]:
+                continue
+            if len(a) >= 1 and (a[1:] in ([], ['*other_args'])) and k in ([], [(None, 'kwargs')]):
+                return False           # recognised: extra positional or keyword arguments are dropped
+            return None
+        outs = [ast.unparse(st.value).replace(' ', '') for st in wr.body if isinstance(st, ast.Assign) and ast.unparse(st.targets[0]) == 'out']
+        if len(outs) != 1:
+            return None
+        if re.fullmatch(r'np\.(empty|zeros)\([\[\(]\*(\w+)\.shape,2,2[\]\)],dtype=\2\.dtype\)', outs[0]):
+            return True
+        if re.fullmatch(r'np\.(empty|zeros)\([\[\(]2,2,\*(\w+)\.shape[\]\)],dtype=\2\.dtype\)', outs[0]):
+            return False               # recognised: the matrix axes in front instead of behind
+        return None
+    g.fact('adapterForwardsArgumentsAndShape', 'prysm/x/polarization.py:jones_adapter', adapter_forwards)
+
+    def add_jones():
+        """add_jones_propagation replaces propagation.<name> by jones_adapter(propagation.<name>) for exactly the listed names;
+        the default list is supported_propagation_funcs"""
+        fn = get_def(po, 'add_jones_propagation')
+        dflt = default_of(fn, 'funcs_to_change')
+        if ast.unparse(dflt) != 'supported_propagation_funcs':
+            return False if isinstance(dflt, (ast.List, ast.Tuple)) else None      # a literal other list is wrong; None-then-fill etc.: not understood
+        loops = [st for st in fn.body if isinstance(st, ast.For)]
+        if len(loops) != 1 or ast.unparse(loops[0].iter).replace(' ', '') != 'vars(propagation).items()' \
+                or ast.unparse(loops[0].target).replace(' ', '') not in ('name,func', '(name,func)'):
+            return None
+        body = loops[0].body
+        if len(body) != 1 or not isinstance(body[0], ast.If) or body[0].orelse:
+            return None
+        test = ast.unparse(body[0].test).replace(' ', '')
+        if test != 'nameinfuncs_to_change':
+            return False if test in ('namenotinfuncs_to_change',) else None
+        sets = [ast.unparse(x).replace(' ', '') for x in body[0].body]
+        if sets == ['setattr(propagation,name,jones_adapter(func))']:
+            return True
+        if sets in (['setattr(propagation,name,func)'], ['setattr(propagation,name,jones_adapter)']):
+            return False               # recognised: the function is put back unwrapped / the decorator itself is stored
+        return None
+    g.fact('addJonesWrapsEachListedFunctionInPlace', 'prysm/x/polarization.py:add_jones_propagation', add_jones)
 
     # ------------------------------------------------------------------ documented default arguments
     def defaults():
